@@ -660,7 +660,7 @@ func (fr *Frame) xexit(cond Term, what string, pos token.Pos) {
 	if fr.vc.spec > 0 {
 		return
 	}
-	fr.vc.xexits = append(fr.vc.xexits, Exit{Cond: cond, St: fr.st.clone(), What: what, Pos: pos})
+	fr.vc.xexits = append(fr.vc.xexits, Exit{Cond: cond, St: fr.st.clone(), What: what, Pos: pos, NAss: len(fr.vc.asserts)})
 }
 
 // check adds a safety obligation (or an exceptional exit when the function declares panics)
@@ -861,7 +861,7 @@ func (fr *Frame) enterLoop(ld *loopData, entryPhi map[*ssa.Phi]Val) {
 	// 3. assume invariants
 	for _, cl := range invs {
 		t := fr.evalLoopClause(ld, cl, hav)
-		vc.assume(t)
+		vc.assume(implies(fr.live, t))
 	}
 	// automatic invariant for integer range counters: 0 <= i (signed) is implied by i < n checks
 	fr.autoRangeInv(ld, hav)
@@ -901,9 +901,9 @@ func (fr *Frame) autoRangeInv(ld *loopData, hav map[*ssa.Phi]Val) {
 				i := hav[phi].T
 				w := bvWidth(i.Sort)
 				if isSigned(phi.Type()) {
-					vc.assume(and(app(SBool, "bvsle", bvLit(0, w), i), app(SBool, "bvslt", i, bound)))
+					vc.assume(implies(fr.live, and(app(SBool, "bvsle", bvLit(0, w), i), app(SBool, "bvslt", i, bound))))
 				} else {
-					vc.assume(app(SBool, "bvult", i, bound))
+					vc.assume(implies(fr.live, app(SBool, "bvult", i, bound)))
 				}
 			}
 		}
